@@ -23,44 +23,49 @@ theorem newTypecast_shape (t : TyId) (inner c : Node) (h : ctx.newTypecast t inn
   · cases h; exact ⟨_, rfl⟩
   · cases h
 
-/-- the three ways `castNode` can succeed -/
+/-- the three ways `castNode` can succeed; a call that also returns an error is taken as it is or
+not at all — it is never wrapped -/
 theorem castNode_cases (lhsT : TyId) (rhs n : Node) (w : List String)
     (h : ctx.castNode lhsT rhs = .ok (some n, w)) :
     (n = rhs ∧ ctx.env.assignable (rhs.exprType ctx.env) lhsT = true) ∨
     (n = .stringer rhs ∧ ctx.opts.stringer = true ∧ ctx.env.assignable ctx.env.stringTy lhsT = true ∧
-       ctx.env.compliesStringer (rhs.exprType ctx.env) = true) ∨
+       ctx.env.compliesStringer (rhs.exprType ctx.env) = true ∧ rhs.returnsError = false) ∨
     ((∃ e, n = .cast rhs lhsT e) ∧ ctx.opts.typecast = true ∧
-       ctx.env.convertible (rhs.exprType ctx.env) lhsT = true) := by
+       ctx.env.convertible (rhs.exprType ctx.env) lhsT = true ∧ rhs.returnsError = false) := by
   unfold BCtx.castNode at h
   simp only at h
   by_cases ha : ctx.env.assignable (rhs.exprType ctx.env) lhsT = true
   · simp only [ha, ↓reduceIte] at h
     cases h; exact Or.inl ⟨rfl, ha⟩
   · simp only [ha, Bool.false_eq_true, ↓reduceIte] at h
-    by_cases hs : (ctx.opts.stringer && ctx.env.assignable ctx.env.stringTy lhsT &&
-        ctx.env.compliesStringer (rhs.exprType ctx.env)) = true
-    · simp only [hs, ↓reduceIte] at h
-      cases h
-      simp only [Bool.and_eq_true] at hs
-      exact Or.inr (Or.inl ⟨rfl, hs.1.1, hs.1.2, hs.2⟩)
-    · simp only [hs, Bool.false_eq_true, ↓reduceIte] at h
-      by_cases ht : (ctx.opts.typecast && ctx.env.convertible (rhs.exprType ctx.env) lhsT) = true
-      · simp only [ht, ↓reduceIte] at h
-        simp only [Bool.and_eq_true] at ht
-        cases hnt : ctx.newTypecast lhsT rhs with
-        | ok c? =>
-          cases c? with
-          | some c =>
-            simp only [hnt] at h
-            cases h
-            exact Or.inr (Or.inr ⟨newTypecast_shape ctx lhsT rhs n hnt, ht.1, ht.2⟩)
-          | none =>
-            simp only [hnt] at h
-            cases h
-        | error e => simp only [hnt] at h; cases h
-        | panic p => simp only [hnt] at h; cases h
-      · simp only [ht, Bool.false_eq_true, ↓reduceIte] at h
+    by_cases hre : rhs.returnsError = true
+    · simp only [hre, ↓reduceIte] at h; cases h
+    · have hre' : rhs.returnsError = false := by simpa using hre
+      simp only [hre', Bool.false_eq_true, ↓reduceIte] at h
+      by_cases hs : (ctx.opts.stringer && ctx.env.assignable ctx.env.stringTy lhsT &&
+          ctx.env.compliesStringer (rhs.exprType ctx.env)) = true
+      · simp only [hs, ↓reduceIte] at h
         cases h
+        simp only [Bool.and_eq_true] at hs
+        exact Or.inr (Or.inl ⟨rfl, hs.1.1, hs.1.2, hs.2, hre'⟩)
+      · simp only [hs, Bool.false_eq_true, ↓reduceIte] at h
+        by_cases ht : (ctx.opts.typecast && ctx.env.convertible (rhs.exprType ctx.env) lhsT) = true
+        · simp only [ht, ↓reduceIte] at h
+          simp only [Bool.and_eq_true] at ht
+          cases hnt : ctx.newTypecast lhsT rhs with
+          | ok c? =>
+            cases c? with
+            | some c =>
+              simp only [hnt] at h
+              cases h
+              exact Or.inr (Or.inr ⟨newTypecast_shape ctx lhsT rhs n hnt, ht.1, ht.2, hre'⟩)
+            | none =>
+              simp only [hnt] at h
+              cases h
+          | error e => simp only [hnt] at h; cases h
+          | panic p => simp only [hnt] at h; cases h
+        · simp only [ht, Bool.false_eq_true, ↓reduceIte] at h
+          cases h
 
 /-- **T4.2 (no conversion without its opt-in).** Whatever `castNode` returns is the candidate
 itself, or its `String()` call — only when `:stringer` is on —, or a type conversion — only when
@@ -84,39 +89,47 @@ theorem castNode_sound (lhsT : TyId) (rhs n : Node) (w : List String)
     ((∃ e, n = .cast rhs lhsT e) ∧ ctx.env.convertible (rhs.exprType ctx.env) lhsT = true) := by
   rcases castNode_cases ctx lhsT rhs n w h with h1 | h2 | h3
   · exact Or.inl h1.2
-  · exact Or.inr (Or.inl ⟨h2.1, h2.2.2.1, h2.2.2.2⟩)
-  · exact Or.inr (Or.inr ⟨h3.1, h3.2.2⟩)
+  · exact Or.inr (Or.inl ⟨h2.1, h2.2.2.1, h2.2.2.2.1⟩)
+  · exact Or.inr (Or.inr ⟨h3.1, h3.2.2.1⟩)
 
-/-- **completeness of `castNode`**: it refuses only when the candidate's type is not assignable, the
+/-- **completeness of `castNode`**: it refuses only when the candidate's type is not assignable and
+either the candidate is a call that also returns an error (which cannot be wrapped), or the
 `String()` route is closed (not opted in, or not applicable) and the conversion route is closed (not
 opted in, or the types are not convertible) -/
 theorem castNode_none (lhsT : TyId) (rhs : Node) (w : List String) (h : ctx.castNode lhsT rhs = .ok (none, w)) :
     ctx.env.assignable (rhs.exprType ctx.env) lhsT = false ∧
-    (ctx.opts.stringer && ctx.env.assignable ctx.env.stringTy lhsT &&
-        ctx.env.compliesStringer (rhs.exprType ctx.env)) = false ∧
-    ((ctx.opts.typecast && ctx.env.convertible (rhs.exprType ctx.env) lhsT) = false ∨
-      ctx.newTypecast lhsT rhs = .ok none) := by
+    (rhs.returnsError = true ∨
+      ((ctx.opts.stringer && ctx.env.assignable ctx.env.stringTy lhsT &&
+          ctx.env.compliesStringer (rhs.exprType ctx.env)) = false ∧
+       ((ctx.opts.typecast && ctx.env.convertible (rhs.exprType ctx.env) lhsT) = false ∨
+        ctx.newTypecast lhsT rhs = .ok none))) := by
   unfold BCtx.castNode at h
   simp only at h
   by_cases ha : ctx.env.assignable (rhs.exprType ctx.env) lhsT = true
   · simp only [ha, ↓reduceIte] at h; cases h
   · simp only [ha, Bool.false_eq_true, ↓reduceIte] at h
-    by_cases hs : (ctx.opts.stringer && ctx.env.assignable ctx.env.stringTy lhsT &&
-        ctx.env.compliesStringer (rhs.exprType ctx.env)) = true
-    · simp only [hs, ↓reduceIte] at h; cases h
-    · simp only [hs, Bool.false_eq_true, ↓reduceIte] at h
-      refine ⟨by simpa using ha, by simpa using hs, ?_⟩
-      by_cases ht : (ctx.opts.typecast && ctx.env.convertible (rhs.exprType ctx.env) lhsT) = true
-      · simp only [ht, ↓reduceIte] at h
-        right
-        cases hnt : ctx.newTypecast lhsT rhs with
-        | ok c? =>
-          cases c? with
-          | some c => simp only [hnt] at h; cases h
-          | none => rfl
-        | error e => simp only [hnt] at h; cases h
-        | panic p => simp only [hnt] at h; cases h
-      · left; simpa using ht
+    refine ⟨by simpa using ha, ?_⟩
+    by_cases hre : rhs.returnsError = true
+    · exact Or.inl hre
+    · right
+      have hre' : rhs.returnsError = false := by simpa using hre
+      simp only [hre', Bool.false_eq_true, ↓reduceIte] at h
+      by_cases hs : (ctx.opts.stringer && ctx.env.assignable ctx.env.stringTy lhsT &&
+          ctx.env.compliesStringer (rhs.exprType ctx.env)) = true
+      · simp only [hs, ↓reduceIte] at h; cases h
+      · simp only [hs, Bool.false_eq_true, ↓reduceIte] at h
+        refine ⟨by simpa using hs, ?_⟩
+        by_cases ht : (ctx.opts.typecast && ctx.env.convertible (rhs.exprType ctx.env) lhsT) = true
+        · simp only [ht, ↓reduceIte] at h
+          right
+          cases hnt : ctx.newTypecast lhsT rhs with
+          | ok c? =>
+            cases c? with
+            | some c => simp only [hnt] at h; cases h
+            | none => rfl
+          | error e => simp only [hnt] at h; cases h
+          | panic p => simp only [hnt] at h; cases h
+        · left; simpa using ht
 
 /-- an assignable candidate is always taken as it is -/
 theorem castNode_assignable (lhsT : TyId) (rhs : Node)
